@@ -155,7 +155,10 @@ def end_to_end(rng, stats, out, n):
         sch = rng.choice([b"s:http|", b"s:https|"])
         port = rng.choice(PORTS)
         hosts = [b"h:com|", rng.choice([b"h:a|", b"h:b|"])] + ([b"h:c|"] if rng.random() < 0.3 else [])
-        path = b"".join(rng.choice(PATHS) for _ in range(rng.randint(0, 2)))
+        # path stems incl. exact block-payload lengths (73, 74, 75, 148 bytes): the prefix a path rule
+        # proposes then ends with such a stem
+        e2e_paths = PATHS + [b"p:" + b"x" * (n - 3) + b"|" for n in (73, 74, 75, 148)]
+        path = b"".join(rng.choice(e2e_paths) for _ in range(rng.randint(0, 2)))
         site = sch + port + b"".join(hosts)
         default = rng.choice(["domain", "subdomain"])
         rules = {}
